@@ -18,3 +18,4 @@ def rules(ctx):
     S.create_only_when_empty_rules(ctx)
     S.open_reads_within_length_rules(ctx)
     S.own_growth_rules(ctx)
+    S.round5_rules(ctx)
